@@ -62,8 +62,11 @@ impl<'a> Eng<'a> {
         let (rv, info) = reference(sc);
         self.spy.phase.store(1, Ordering::SeqCst);
         let p = if pool > 0 { Some(self.pools.get(pool) as &rayon::ThreadPool) } else { None };
-        let manual = kind == "manual-two-phase";
-        let run = if manual { run_two_phase_manual(sc, p) } else { run_two_pass(sc, sc.solutions.clone(), p, delay_seed) };
+        let run = match kind {
+            "manual-two-phase" => run_two_phase_manual(sc, p, false),
+            "manual-per-solution" => run_two_phase_manual(sc, p, true),
+            _ => run_two_pass(sc, sc.solutions.clone(), p, delay_seed),
+        };
         let obs = self.spy.take();
         self.rep.evaluations += 1;
         self.rep.count(&format!("workload.{kind}"));
@@ -71,7 +74,8 @@ impl<'a> Eng<'a> {
         compare_verdict(sc, &rv, &info, &run.verdict, &mut issues);
         let exp = expected_obs(&info);
         check_beacons(sc, &rv, &info, &run, &exp, &mut issues);
-        let (compared, matched) = check_node_inputs(&rv, &obs, &run.beacons, &mut issues);
+        let unique_tags = (0..sc.solutions.len()).map(|i| sc.tag(i)).collect::<BTreeSet<_>>().len() == sc.solutions.len();
+        let (compared, matched) = check_node_inputs(&rv, &obs, &run.beacons, unique_tags, &mut issues);
         // a solution whose graph is cyclic / malformed must be rejected before any of its nodes runs
         if let RefVerdict::Err { failing, .. } = &rv {
             for (si, f) in failing {
@@ -185,6 +189,7 @@ fn opts_for(prop: &str, r: &mut Rng) -> GenOpts {
         "C04" => {
             o.allow_conflicts = r.chance(0.3);
             o.max_solutions = 6;
+            o.p_dup_solution = 0.12;
             o.p_post = 0.3;
             o.p_raw_graph = 0.02;
         }
@@ -292,7 +297,7 @@ fn permutation_check(e: &mut Eng, sc: &Scenario, r: &mut Rng, canonical: bool) {
                     }
                 }
             }
-            (RealVerdict::Err { failing: f0 }, RealVerdict::Err { failing: f2 }) => {
+            (RealVerdict::Err { failing: f0, .. }, RealVerdict::Err { failing: f2, .. }) => {
                 let a: BTreeSet<usize> = f0.keys().copied().collect();
                 let b: BTreeSet<usize> = f2.keys().map(|j| perm[*j]).collect();
                 // decoding errors report only the first solution met: order dependent by design
@@ -384,6 +389,10 @@ pub fn run(args: &Args, rep: &mut Report) {
                     // the two run modes in sequence over a shared cache, harness-owned post-state view
                     e.judge(&sc, pool, 0, "manual-two-phase");
                 }
+                if (args.prop == "C01" || args.prop == "C03") && i % 4 == 3 {
+                    // the single-predicate entry point, once per solution and run mode, own cache per solution
+                    e.judge(&sc, pool, 0, "manual-per-solution");
+                }
                 if args.prop == "C01" && i % 3 == 0 {
                     if let Some(sc2) = scengen::renumber(&mut r, &sc) {
                         let (a, b) = (reference(&sc).0, reference(&sc2).0);
@@ -424,11 +433,16 @@ pub fn run(args: &Args, rep: &mut Report) {
                         let dg = std::mem::take(&mut e.last_digests);
                         if s == 0 && (p == 1 || p == 16) && !miri {
                             // the other entry points (Outputs then Checks over a shared cache) under the same pools
-                            let (_, m, _) = e.judge(&sc, p, 0, "manual-two-phase");
+                            let (_, m0, _) = e.judge(&sc, p, 0, "manual-two-phase");
+                            let (_, m1, _) = e.judge(&sc, p, 0, "manual-per-solution");
+                            if m0 != m1 && !matches!(reference(&sc).0, RefVerdict::Unspec(_)) {
+                                e.rep.violation("C02", "entry-points-disagree", format!("check_set_predicates gives {}, check_predicate per solution gives {} (pool {p})", short(&m0), short(&m1)), case_json(&sc, json!({"pools": [p]})));
+                            }
+                            let m = m0;
                             if let Some((f, p0, _)) = &first {
                                 let same = match (f, &m) {
                                     (RealVerdict::Ok { gas: g1, mutations: m1 }, RealVerdict::Ok { gas: g2, mutations: m2 }) => g1 == g2 && m1 == m2,
-                                    (RealVerdict::Err { failing: a }, RealVerdict::Err { failing: b }) => a.keys().collect::<Vec<_>>() == b.keys().collect::<Vec<_>>() || a.values().chain(b.values()).all(|x| *x == scen::RealFail::Mutations),
+                                    (RealVerdict::Err { failing: a, .. }, RealVerdict::Err { failing: b, .. }) => a.keys().collect::<Vec<_>>() == b.keys().collect::<Vec<_>>() || a.values().chain(b.values()).all(|x| *x == scen::RealFail::Mutations),
                                     (RealVerdict::Panic(_), RealVerdict::Panic(_)) => true,
                                     _ => false,
                                 };
